@@ -35,6 +35,8 @@ TRUSTED = ["C01/C02 for `reported distance = minimum over all partial matchings`
            "the external solvers are NOT trusted by this check: whatever matching they select, the rows built from it are validated per call"]
 EXACT_MODES = ("lattice", "half", "dyadic")
 FILES = ["persim/bottleneck.py", "persim/wasserstein.py"]
+PROP_FILES = ["PersimVerif/Props/C06.lean"]
+PROP_FILES += ["PersimVerif/Props/C06Model.lean"]
 
 
 # ----------------------------------------------------------------------------- generators
@@ -588,7 +590,11 @@ MANIFEST = {
             "maximum of the third entries (bottleneck) and whose total cost is exactly their sum (Wasserstein), so together with "
             "C01/C02 the rows are an OPTIMAL matching; (2) the model of both extraction loops (re-indexing to -1, dropping "
             "diagonal-diagonal rows) applied to ANY perfect matching of the augmented matrix is accepted by the checker, its row "
-            "maximum equals the least feasible threshold and its row sum equals the sum of all selected entries; (3) the distance "
+            "maximum equals the least feasible threshold and its row sum equals the sum of all selected entries; (2') Props/C06Model.lean "
+            "composes this with C01/C02 for the MODELS OF THE CODE themselves: for every oracle honouring OracleMax / solver honouring "
+            "LsaContract and diagrams of every size, the rows `bottleneckWithMatching` / `wasserstein` return are (up to the "
+            "representation of the finite third entry) exactly C06's extracted rows, pass `checkRows`, have max / sum equal to the "
+            "returned distance, are an optimal matching, and the certified value is independent of the oracle / solver; (3) the distance "
             "component does not depend on the flag; (4) an empty side is index 0 of the one-point diagram (0,0). That the returned "
             "distance is the specification value (minimum over all partial matchings) is C01/C02, not proved here. The rows returned "
             "by the real code are never compared with a model's rows (any optimal matching is acceptable): every returned matching, "
